@@ -538,6 +538,22 @@ func checkC04(c *Ctx) {
 		p, res, cache, root := richCache(cs, hosts)
 		defer os.RemoveAll(root)
 		devs := sortedDevs(res)
+		// a device that resolves but whose edits cannot be applied (its node names no type
+		// and the host path does not exist): in a request that has misses anyway it is
+		// just another resolvable name
+		failing := ""
+		if chance(r, 25) {
+			for i, d := range p.Phys {
+				if p.Exists[i] {
+					must(os.WriteFile(filepath.Join(d, "zz-apply-fails.json"), []byte(`{"cdiVersion":"0.6.0","kind":"failing.org/dev","devices":[{"name":"gone","containerEdits":{"deviceNodes":[{"path":"/dev/verif-no-such-host-node"}]}}]}`), 0o644))
+					cache.Refresh()
+					failing = "failing.org/dev=gone"
+					devs = append(devs, failing, failing)
+					c.Count("caches_with_a_device_that_fails_at_apply_time", 1)
+					break
+				}
+			}
+		}
 		// names that some file defines but that do not resolve (conflict at the top)
 		var removed []string
 		for _, f := range p.Files {
@@ -577,7 +593,7 @@ func checkC04(c *Ctx) {
 			var want []string
 			pattern := ""
 			for _, q := range req {
-				if _, ok := res.Devices[q]; !ok {
+				if _, ok := res.Devices[q]; !ok && (failing == "" || q != failing) {
 					want = append(want, q)
 					pattern += "u"
 				} else {
